@@ -79,7 +79,7 @@ def make_xx(cfg):
     attrs = {}
     if cfg.get("nodata") is not None:
         attrs[cfg.get("nodata_attr", "nodata")] = cfg["nodata"]
-    if cfg.get("fill_value_attr") is not None:
+    if cfg.get("fill_value_attr") is not None and cfg.get("nodata_attr", "nodata") == "nodata":
         attrs["_FillValue"] = cfg["fill_value_attr"]       # present besides `nodata` (which wins) and different
     xx = xr.DataArray(data, dims=dims, coords=coords, attrs=attrs)
     return xx, pix, gbox
@@ -155,9 +155,14 @@ def run_writer(cfg, workdir):
         return hdr
 
     kw = {}
-    for k in ("compression", "predictor", "blocksize", "bigtiff", "stats", "spill_sz", "writes_per_chunk", "level"):
+    for k in ("compression", "predictor", "blocksize", "bigtiff", "stats", "spill_sz", "writes_per_chunk", "level",
+              "compressionargs"):
         if k in cfg and cfg[k] is not None:
             kw[k] = cfg[k]
+    # codec tuning options in GDAL spelling (zlevel=, zstd_level=, max_z_error=, ...) go through **kw of the writer
+    kw.update(cfg.get("kw") or {})
+    if "compressionargs" in kw:
+        kw["compressionargs"] = dict(kw["compressionargs"])       # the writer mutates it
     if "blocksize" in kw:
         kw["blocksize"] = [tuple(b) if isinstance(b, (list, tuple)) else b for b in kw["blocksize"]] \
             if isinstance(kw["blocksize"], list) else kw["blocksize"]
